@@ -244,11 +244,11 @@ def image_case(rng, cid, tier):
     sp = splits(rng, mn, mx, means)
     b.query(3, 0, mode, sp); b.query(5, 0, mode, sp); b.query(6, 0, mode, sp)
     b.rq(0, qgrid(rng, total)[:40])
-    # A value strictly inside (min, first mean) or (last mean, max) becomes a unit first/last centroid that
+    # A value inside (min, first mean] or [last mean, max) becomes a unit first/last centroid that
     # is NOT min/max after the next pass: the known class D17 (tagged); untagged cases stay outside.
     derived_loose = kind != "loose-unit" and rng.random() < 0.08
     def safe(x):
-        inside = (mn < x < means[0]) or (means[-1] < x < mx)
+        inside = (mn < x <= means[0]) or (means[-1] <= x < mx)
         return inside if derived_loose and (mn < means[0] or means[-1] < mx) else not inside
     def pick(pool):
         ok = [x for x in pool if safe(x)]
